@@ -373,14 +373,14 @@ func runC16(c *Ctx) {
 				gos[i], tb[i], tl[i] = s, t, t
 			case 4:
 				v := r.IntN(2) == 0
-				gos[i], tb[i], tl[i] = v, "b:"+b01(v), "b:"+b01(v)
+				gos[i], tb[i], tl[i] = v, "b:"+c16bit(v), "b:"+c16bit(v)
 			case 5:
 				m := r.IntN(4)
 				bs := make([]bool, m)
 				var sb strings.Builder
 				for j := range bs {
 					bs[j] = r.IntN(2) == 0
-					sb.WriteString(b01(bs[j]))
+					sb.WriteString(c16bit(bs[j]))
 				}
 				gos[i], tb[i], tl[i] = bs, "bs:"+sb.String(), "bs:"+sb.String()
 			case 6:
@@ -440,7 +440,7 @@ func runC16(c *Ctx) {
 	c.Res.Traces = len(cases)
 }
 
-func b01(b bool) string {
+func c16bit(b bool) string {
 	if b {
 		return "1"
 	}
@@ -581,7 +581,7 @@ func c16Lists(c *Ctx) {
 		c.Stat("ctor:list")
 		errNonNil := k.it.Error() != nil
 		_, merr := hsms.NewDataMessage(1, 1, true, 0, [4]byte{}, k.it)
-		got := fmt.Sprintf("errored=%s error=%s accepts=%s size=%d", b01(strings.Contains(k.tok, "X")), b01(errNonNil), b01(merr == nil), k.it.Size())
+		got := fmt.Sprintf("errored=%s error=%s accepts=%s size=%d", c16bit(strings.Contains(k.tok, "X")), c16bit(errNonNil), c16bit(merr == nil), k.it.Size())
 		replay := map[string]any{"tree": k.tok}
 		if strings.Contains(k.tok, "X") != errNonNil {
 			c.Violate("property", "list-error-aggregation", fmt.Sprintf("tree %s: Error()!=nil is %v", k.tok, errNonNil), replay)
